@@ -1,7 +1,8 @@
 (* props/C02.v - C02: the hard-packing score is the true packing fraction, never above 1 (reals; PARTIAL).
    Proved: score = copies x area / cell area, cell area = |A x B|, the polygon formula = shoelace area of the
-   radial polygon, the molecule formula = disc areas minus pairwise lens terms.  Not proved: the lens term is
-   the area of a two-disc intersection; score <= 1.  Known finding D7: three discs with a common point, or a
+   radial polygon, the molecule formula = disc areas minus pairwise lens terms, and (end of the file) the lens term
+   = the area of the two-disc intersection as the integral of the chord length over the two segments cut by the
+   common chord.  Not proved: score <= 1.  Known finding D7: three discs with a common point, or a
    disc inside another, make the molecule area wrong (or NaN). *)
 From Coq Require Import ZArith List Bool Reals. Import ListNotations.
 From PV Require Import Num NumR model.Geom proofs.LatticeFacts proofs.OverlapFacts proofs.PackingFacts proofs.LJFacts proofs.AreaFacts proofs.RedescribeFacts.
@@ -70,4 +71,48 @@ Theorem C02_packed_score_site_shift :
     packed_score NumR st.
 Proof. exact packed_score_site_shift. Qed.
 Print Assumptions C02_packed_score_site_shift.
+
+(* ---- the lens term as an integral (Coquelicot): overlap_area(r, d) = G r d is the antiderivative of minus the
+   chord length that vanishes at the rim; circle_overlap is the sum of the two segments cut by the common chord ---- *)
+From Coquelicot Require Import Coquelicot.
+From PV Require Import proofs.LensFacts proofs.LensModel.
+Local Open Scope R_scope.
+
+Theorem C02_segment_integral :
+  forall r : R, 0 < r -> forall d b : R, - r < d -> d <= b -> b < r -> is_RInt (fun x : R => 2 *
+    sqrt (r * r - x * x)) d b (G r d - G r b).
+Proof. exact segment_integral. Qed.
+Print Assumptions C02_segment_integral.
+
+Theorem C02_G_derive :
+  forall r : R, 0 < r -> forall x : R, - r < x < r -> is_derive (G r) x (- (2 * sqrt (r * r - x
+    * x))).
+Proof. exact G_derive. Qed.
+Print Assumptions C02_G_derive.
+
+Theorem C02_G_rim :
+  forall r : R, 0 < r -> G r r = 0.
+Proof. exact G_rim. Qed.
+Print Assumptions C02_G_rim.
+
+Theorem C02_G_whole :
+  forall r : R, 0 < r -> G r (- r) = PI * (r * r).
+Proof. exact G_whole. Qed.
+Print Assumptions C02_G_whole.
+
+Theorem C02_overlap_area_is_G :
+  forall r d : R, 0 < r -> - r <= d <= r -> overlap_area NumR acos r d = G r d.
+Proof. exact overlap_area_is_G. Qed.
+Print Assumptions C02_overlap_area_is_G.
+
+Theorem C02_circle_overlap_is_two_segments :
+  forall a b : discR, 0 < dr NumR a -> 0 < dr NumR b -> let D := sqrt (dist2 (dx_ NumR a) (dy_
+    NumR a) (dx_ NumR b) (dy_ NumR b)) in Rabs (dr NumR a - dr NumR b) <= D -> D < dr NumR a +
+    dr NumR b -> 0 < D -> let d1 := (D * D + dr NumR a * dr NumR a - dr NumR b * dr NumR b) / (2
+    * D) in let d2 := (D * D + dr NumR b * dr NumR b - dr NumR a * dr NumR a) / (2 * D) in
+    circle_overlap NumR acos a b = G (dr NumR a) d1 + G (dr NumR b) d2 /\ d1 + d2 = D /\ dr NumR
+    a * dr NumR a - d1 * d1 = dr NumR b * dr NumR b - d2 * d2 /\ - dr NumR a <= d1 <= dr NumR a
+    /\ - dr NumR b <= d2 <= dr NumR b.
+Proof. exact circle_overlap_is_two_segments. Qed.
+Print Assumptions C02_circle_overlap_is_two_segments.
 
